@@ -173,7 +173,7 @@ Proof.
 Qed.
 
 (* ---------- runs of one tick under an arbitrary answer order *)
-Inductive ev := EDispatch (a : action) | EAnswer (c : comp) (ch : changes).
+(* [ev] (a dispatch or an answer) is defined in Model/Ticker.v *)
 
 Definition answered (tr : list ev) (c : comp) : Prop := exists ch, In (EAnswer c ch) tr.
 Definition dispatched (tr : list ev) (c : comp) : Prop := exists a, In (EDispatch a) tr /\ act_comp a = c.
